@@ -470,7 +470,7 @@ func runProperty(w *World, res *checkResult, thorough bool, timeoutMs int) {
 			}
 		}
 	}
-	if p == "C08" || p == "C12" || p == "C19" {
+	if p == "C08" || p == "C12" || p == "C13" || p == "C19" {
 		// deadlock freedom of the module's own mutexes: no cycle in "may be acquired while ... may be held" (classes =
 		// struct type + mutex field; calls through interfaces resolved to the module's implementations), and no class
 		// re-acquired while it may already be held
